@@ -193,7 +193,7 @@ CHECKS = {
     "C12": {
         "level": "fault_enumeration",
         "manifest": {
-            "technique": "fault enumeration inside the property-based harness: rapid-generated databases (independent builder, and files written by SQLite with secondary indexes on WITHOUT ROWID tables and partial indexes); for every operation the number n of page reads is measured and the k-th read is failed for every k in 1..n as I/O error, short read (io.EOF) and 0xFF-filled page, plus a failing RLock; oracle = error returned and delivered rows a prefix of the fault-free result",
+            "technique": "fault enumeration inside the property-based harness: rapid-generated databases (independent builder, and files written by SQLite with secondary indexes on WITHOUT ROWID tables and partial indexes); for every operation the number n of page reads is measured and the k-th read is failed for every k in 1..n as I/O error, short read (io.EOF) and 0xFF-filled page, plus a failing RLock; oracle = error returned and delivered rows a prefix of the fault-free result; plus structural damage: builder images in which index entries have lost their table row (an index select meeting such an entry must fail, having delivered exactly the rows before it)",
             "level_text": "Exhaustive in k (every page read from Open to the end of the operation) and in three fault kinds per (database, operation); databases and operation arguments are sampled. Oracle: err != nil and rows a positional prefix of the fault-free rows, no panic.",
             "level_note": "Faults are injected in the harness pager behind the verif hook (one fault per run, fresh handle per run). 0xFF-filled overflow pages are excluded and counted: no reader can detect them. The database/sql driver's error hand-off is covered under C19 with corrupted files.",
         },
@@ -208,6 +208,7 @@ CHECKS = {
         "jobs": [
             job("builder", "c12", ["TestC12Builder"], 150, 2500, 2, 8),
             job("sqlite", "c12", ["TestC12SQLite"], 60, 1000, 2, 6),
+            job("inconsistent", "c12", ["TestC12Inconsistent"], 400, 8000, 2, 8),
         ],
     },
     "C05": {
